@@ -81,6 +81,27 @@ SLOTTED_PATHS = [
 ]
 
 
+def two_field_trees() -> list[Any]:
+    """A class with two tuple child fields, both populated at the same indices."""
+    L = lambda v: R("VLeaf", {"v": v})  # noqa: E731
+    S = lambda v: R("VSubLeaf", {"v": v})  # noqa: E731
+    return [
+        R("VTwoSeq", left=(L(50), L(51)), right=(L(52), S(53), L(54)), mid=L(55)),
+        R("VMany", items=(R("VTwoSeq", left=(L(56),), right=(L(57),)), R("VTwoSeq", left=(), right=(S(58), L(59))))),
+    ]
+
+
+def two_field_paths() -> list[tuple[list[tuple], bool]]:
+    out = []
+    for anywhere in (False, True):
+        for idx in ("0", "1", "2", "any", None):
+            for fld in (None, "left", "right", "mid"):
+                for cls in ("VLeaf", "VBase"):
+                    out.append(([(True, None, None, "VTwoSeq"), (anywhere, fld, idx, cls)], False))
+    out += [([(False, None, None, "VTwoSeq"), (False, None, "1", "VLeaf")], False), ([(False, None, None, "VTwoSeq"), (False, None, "1", "VLeaf")], True)]
+    return out
+
+
 def make_harness(paths: list[tuple[list[tuple], bool]], trees: list[Any] | None = None):
     TREES = trees if trees is not None else globals()["TREES"]  # noqa: N806
 
@@ -211,6 +232,7 @@ def spec(tier: str, seed: int) -> Spec:
     paths = path_space(tier)
     chunk = max(1, len(paths) // 64)
     fams = [Family(f"xpaths[{k}:{k + chunk}]", make_harness(paths[k : k + chunk]), variables="selectors: xpath derivation, tree") for k in range(0, len(paths), chunk)]
+    fams.append(Family("two-sequence-fields", make_harness(two_field_paths(), two_field_trees()), variables="selectors: xpath (index with and without a field name), tree"))
     fams.append(Family("slotted-classes", make_harness(SLOTTED_PATHS, slotted_trees()), variables="selectors: xpath, tree (classes created with slots=True)"))
     return Spec(
         families=fams,
